@@ -1,5 +1,4 @@
--- imports the model of UriCodec_feasibility.lean (without its `main`)
-import Probe.CodecLib
+import UriCodecLib
 /-! Proof calibration for C06: strings.Split ∘ strings.Join on delimiter-free items. -/
 namespace Codec
 
